@@ -373,3 +373,19 @@ Proof.
   unfold build_payload. cbn [p_attributes]. rewrite from_local_first, Hc. cbn [option_map].
   apply attributes_exact; assumption.
 Qed.
+
+(* identity -> attributes -> XML TEXT -> reader -> harvested attributes -> to_local, in one statement *)
+Theorem attributes_via_text cv sp_acs allow ident locals :
+  legal_attributes (map (to_attr cv) ident) = true -> forallb no_cr_attribute (map (to_attr cv) ident) = true ->
+  map (fun kv => sp_name cv sp_acs (fst kv)) ident = map Some locals ->
+  Forall (fun kv => eptid_ok cv sp_acs (fst kv) (snd kv) = true) ident ->
+  NoDup locals ->
+  option_map (fun t => list_to_local sp_acs allow (attrs_of_statement_xml t))
+             (xml_parse (serialise (attr_statement_xml (map (to_attr cv) ident)))) =
+  Some (combine locals (map (fun kv => plain_values (snd kv)) ident)).
+Proof.
+  intros Hl Hc Hn He Hd.
+  pose proof (attributes_through_text_exact _ Hl Hc) as T.
+  destruct (xml_parse (serialise (attr_statement_xml (map (to_attr cv) ident)))) as [t|]; [|discriminate].
+  cbn [option_map] in T |- *. injection T as ->. f_equal. apply attributes_exact; assumption.
+Qed.
